@@ -36,3 +36,17 @@ package cosmos
 //@   step[C13.svd.signed] res_VerifySignature_0
 //@ loop #2
 //@   invariant true
+
+// C13 (a submission is admitted only if it respects the size limit - in CheckTx, ReCheckTx and DeliverTx alike): a
+// fee-less create-price transaction is handed on to the rest of the ante chain only after its bytes have been
+// measured against the limit, whatever the execution mode.
+//@ func (ConsumeTxSizeGasDecorator).AnteHandle#next
+//@   flag assumed
+//@   modifies state(ctx), trace
+
+//@ func (ConsumeTxSizeGasDecorator).AnteHandle
+//@   flag pure=IsOracleCreatePriceTx,TxBytes,IsCheckTx,IsReCheckTx,Wrapf,Wrap,isIncompleteSignature
+//@   flag noframe
+//@   before[C13.txsize.limit] #next requires res_IsOracleCreatePriceTx_0 ==> len(res_TxBytes_0) <= g("app/ante/utils.TxSizeLimit")
+//@ loop #1
+//@   invariant true
